@@ -12,10 +12,10 @@ RULES = {
     'C14.R3': 'axis_bounds / hyperrectangle / place_axis_bounds: finite lower bound -x <= -l, finite upper bound x <= u, infinite bound 0 <= 1, one pair of rows per axis',
     'C14.R2': 'constructors without data-dependent control: unbounded (0·x <= 1), empty (0·x <= -1), hypercube (stack(I, -I) <= radius)',
 }
-FLOORS = {'C14.R1': 10, 'C14.R2': 3, 'C14.R3': 3}
+FLOORS = {'C14.R1': 10, 'C14.R2': 5, 'C14.R3': 3}
 EXPLANATION = ('With r(x) = b - Ax (membership: r(x) >= -1e-8 row-wise) each transformation\'s result (A\', b\') is compared, as a polynomial identity valid for all '
                'matrices, with the residual the documentation prescribes: translate r(x-d), apply_pre r(Mx+c), apply_post r(N(y-k)), rotate r(R^T y).')
-DOES_NOT_DECIDE = ('simplex, cross_polytope (loops over computed entries: out of fragment), from_normal (orientation not documented), '
+DOES_NOT_DECIDE = ('simplex (its numeric constant), the orientation of from_normal (not documented; the boundary through p_i is decided), '
                    'equality of images for non-invertible arguments, tolerance effects')
 TRUSTED = ['semantics of ndarray dot/+/-/neg/t/concatenate/eye/zeros/ones/from_elem as interpreted in affcheck/kernel.py']
 
@@ -72,6 +72,8 @@ def run(ctx):
     one = Poly.atom('𝟙')
     obligation(ctx, 'C14.R2', F, 'AffFuncBase::unbounded', lambda e: Aff(Poly.zero(), one), impl_filter=poly)
     obligation(ctx, 'C14.R2', F, 'AffFuncBase::empty', lambda e: Aff(Poly.zero(), -one), impl_filter=poly)
+    cross_polytope(ctx, F)
+    from_normal(ctx, F)
     b = ctx.body('C14.R2', 'AffFuncBase::hypercube')
     if b is not None:
         R, ret = kernel_return_soft(F, b)
@@ -81,6 +83,118 @@ def run(ctx):
         okb = bias is not None and is_call(bias, 'ArrayBase::from_elem') and bias[2][1] == ('param', 'radius')
         (ctx.ok if okm and okb else ctx.bad)('C14.R2', 'AffFuncBase::hypercube', 'stack(I, -I) x <= radius (all rows)' if okm and okb else
                                              'hypercube is not stack(I, -I) <= radius: %s' % fmt(ret)[:200], b.span)
+
+
+def cross_polytope(ctx, F):
+    """{x : sum |x_j| <= 1} = { s·x <= 1 for every sign vector s in {+1,-1}^dim }.  The generator starts from the all-ones system with 2^dim rows
+    and sets entry [i, j] to -1 exactly when bit j of i is set (or exactly when it is clear): i -> row i is then a bijection between
+    0..2^dim and the sign vectors, so the rows are all of them, once each."""
+    from ..effects import assigns
+    b = ctx.body('C14.R2', 'AffFuncBase::cross_polytope')
+    if b is None:
+        return
+    site = 'AffFuncBase::cross_polytope'
+    R = Resolver(b)
+    rets = [e for _, e in R.return_expr()]
+    if len(rets) != 1 or not is_call(rets[0], 'AffFuncBase::from_mats'):
+        ctx.undecided('C14.R2', site, 'result is not one from_mats(mat, bias)', b.span)
+        return
+    M, B = rets[0][2]
+    DIM = ('param', 'dim')
+
+    def pow2(e):
+        e = s(e)
+        isdim = lambda d: d == DIM or (d[0] == 'cast' and d[1] == DIM)
+        if is_call(e, 'usize::pow') and e[2][0] == ('const', 2) and isdim(e[2][1]):
+            return True
+        if e[0] == 'bin' and e[1] == 'Shl' and e[2] == ('const', 1) and isdim(e[3]):
+            return True
+        return False
+    problems = []
+    if not (is_call(M, 'ArrayBase::ones') and s(M[2][0])[0] == 'agg' and len(s(M[2][0])[2]) == 2 and pow2(s(M[2][0])[2][0]) and s(M[2][0])[2][1] == DIM):
+        ctx.undecided('C14.R2', site, 'the matrix does not start as ones((2^dim, dim)): %s' % fmt(s(M))[:100], b.span)
+        return
+    if not (is_call(B, 'ArrayBase::ones') and pow2(B[2][0])):
+        problems.append('the right-hand side is not 1 for each of the 2^dim rows (%s)' % fmt(s(B))[:80])
+    ws = [w for w in assigns(b, R)]
+    mw = [w for w in ws if is_call(w.target, 'IndexMut::index_mut') and s(w.target[2][0]) == s(M)]
+    other = [w for w in ws if w not in mw and is_call(w.target, 'IndexMut::index_mut') and s(w.target[2][0]) == s(B)]
+    if other:
+        problems.append('the right-hand side is overwritten')
+    if len(mw) != 1:
+        ctx.undecided('C14.R2', site, 'expected exactly one conditional sign write on the matrix, found %d' % len(mw), b.span)
+        return
+    w = mw[0]
+    idx = s(w.target[2][1])
+    idx = idx[2] if idx[0] == 'agg' and idx[1] == 'array' else ()
+    v = s(w.value)
+    val_ok = v in (('call', 'Neg::neg', (('call', 'One::one', ()),)), ('const', -1.0), ('un', 'Neg', ('call', 'One::one', ())), ('un', 'Neg', ('const', 1.0)))
+
+    def rng(e, hi_pred):
+        return is_call(e, 'Iterator::next') and e[2][0][0] == 'agg' and e[2][0][1][:2] == ('adt', 'Range') and e[2][0][2][0] == ('const', 0) and hi_pred(e[2][0][2][1])
+    idx_ok = len(idx) == 2 and rng(idx[0], pow2) and rng(idx[1], lambda h: h == DIM)
+    lits = [l for l in literals(b, R, w.bb)]
+    bit = []
+    rest = []
+    for l in lits:
+        if l[0] == 'is' and is_call(l[1], 'Iterator::next'):
+            continue
+        if l[0] == 'true' and l[1][0] == 'bin' and l[1][1] == 'Lt' and s(l[1][3]) == ('const', 64):
+            continue   # the shift's overflow check
+        e = s(l[1]) if l[0] in ('true', 'false') else None
+        if e is not None and e[0] == 'bin' and e[1] in ('Ne', 'Eq') and e[3] == ('const', 0):
+            x = e[2]
+            a_, b_ = (x[2] if is_call(x, 'BitAnd::bitand') else (x[2], x[3]) if x[0] == 'bin' and x[1] == 'BitAnd' else (None, None))
+            if a_ is not None and len(idx) == 2:
+                sh = lambda y, j: y[0] == 'bin' and y[1] == 'Shl' and y[2] == ('const', 1) and y[3] == j
+                if (a_ == idx[0] and sh(b_, idx[1])) or (b_ == idx[0] and sh(a_, idx[1])):
+                    bit.append(l)
+                    continue
+        rest.append(l)
+    if not val_ok:
+        problems.append('the entry written is not -1 (%s)' % fmt(v)[:60])
+    if not idx_ok:
+        problems.append('the sign write does not range over every row i < 2^dim and every column j < dim')
+    if len(bit) != 1 or rest:
+        problems.append('the sign of entry [i, j] is not decided by bit j of i alone (guards: %s)' % '; '.join(fmt(s(l[1]))[:60] for l in lits if l[0] in ('true', 'false'))[:200])
+    if problems:
+        for p_ in problems:
+            ctx.bad('C14.R2', site, p_, b.span)
+    else:
+        ctx.ok('C14.R2', site, 'rows = all 2^dim sign vectors (entry [i, j] = -1 iff bit j of i), right-hand side 1: {x : sum|x_j| <= 1}', b.span)
+
+
+def from_normal(ctx, F):
+    """Hesse normal form: the boundary of half-space i is the hyperplane with normal n_i through p_i, i.e. row i of the result is
+    (c·n_i) x <= c·(n_i·p_i) with one sign c for the row and its right-hand side."""
+    b = ctx.body('C14.R2', 'AffFuncBase::from_normal')
+    if b is None:
+        return
+    site = 'AffFuncBase::from_normal'
+    R = Resolver(b)
+    rets = [s(e) for _, e in R.return_expr()]
+    if len(rets) != 1 or not is_call(rets[0], 'AffFuncBase::from_mats'):
+        ctx.undecided('C14.R2', site, 'result is not one from_mats(mat, bias)', b.span)
+        return
+    M, B = rets[0][2]
+    N, P = ('param', 'normal_vectors'), ('param', 'points')
+
+    def signed(e):
+        neg = False
+        while is_call(e, 'Neg::neg') or (e[0] == 'un' and e[1] == 'Neg'):
+            e = e[2][0] if e[0] == 'call' else e[2]
+            neg = not neg
+        return neg, e
+    nm, m = signed(M)
+    nb, bv = signed(B)
+    dots = is_call(bv, 'ArrayBase::sum_axis') and s(bv[2][1])[2] == (('const', 1),) and is_call(bv[2][0], 'Mul::mul') and sorted(map(str, bv[2][0][2])) == sorted(map(str, (N, P)))
+    if m != N or not dots:
+        ctx.undecided('C14.R2', site, 'not (±normal_vectors, ±rowwise dot(normal_vectors, points)): %s' % fmt(rets[0])[:160], b.span)
+    elif nm != nb:
+        ctx.bad('C14.R2', site, 'the matrix and the right-hand side carry different signs: the boundary of half-space i passes through -p_i, not p_i', b.span)
+    else:
+        ctx.ok('C14.R2', site, 'row i: %sn_i · x <= %sn_i · p_i — the bounding hyperplane of every half-space has normal n_i and passes through p_i (inside: n_i·(x - p_i) %s 0)' %
+               ('-' if nm else '', '-' if nm else '', '>=' if nm else '<='), b.span)
 
 
 def _row_table(b, R, IDX, AXIS, LOWER, UPPER, MAT, BIAS):
